@@ -291,7 +291,12 @@ func CrashDumpMain(dir string) {
 		out.OpenErr = "nodir"
 		return
 	}
-	b, err := rosmar.OpenBucket("rosmar://"+filepath.Join(dir, "b1"), "b1", rosmar.ReOpenExisting)
+	// "visible to any later open": the verifier opens with ReOpenExisting or CreateOrOpen (CRASH_OPEN_MODE)
+	var mode rosmar.OpenMode = rosmar.ReOpenExisting
+	if os.Getenv("CRASH_OPEN_MODE") == "CreateOrOpen" {
+		mode = rosmar.CreateOrOpen
+	}
+	b, err := rosmar.OpenBucket("rosmar://"+filepath.Join(dir, "b1"), "b1", mode)
 	if err != nil {
 		out.OpenErr = err.Error()
 		return
@@ -386,9 +391,12 @@ func runCrashChild(exe, so, history, dir string, crashAt, stopAfter int) crashRu
 	return r
 }
 
-func runCrashDump(exe, dir string) (crashDump, error) {
+func runCrashDump(exe, dir string, openMode ...string) (crashDump, error) {
 	cmd := exec.Command(exe, "crashdump", dir)
 	cmd.Env = append(os.Environ(), "GOMAXPROCS=2")
+	if len(openMode) > 0 {
+		cmd.Env = append(cmd.Env, "CRASH_OPEN_MODE="+openMode[0])
+	}
 	var out, errb bytes.Buffer
 	cmd.Stdout, cmd.Stderr = &out, &errb
 	err := cmd.Run()
@@ -494,7 +502,13 @@ func RunCrash(rep *Report, history string, procs int, deadline time.Time) {
 			for n := range jobs {
 				d := newDir(fmt.Sprintf("c%d", n))
 				r := runCrashChild(exe, so, history, d, n, -1)
-				dump, err := runCrashDump(exe, d)
+				// every other crash point is verified through CreateOrOpen instead of ReOpenExisting (once the
+				// bucket's creation has been acknowledged: before that CreateOrOpen legitimately creates it)
+				mode := "ReOpenExisting"
+				if n%2 == 1 && r.acks >= 1 {
+					mode = "CreateOrOpen"
+				}
+				dump, err := runCrashDump(exe, d, mode)
 				os.Remove(d + ".log")
 				os.RemoveAll(d)
 				results <- res{n, r.acks, dump, err, r.killed, r.uuid}
@@ -599,7 +613,11 @@ func ReplayCrash(w Witness) int {
 		_ = os.RemoveAll(dir)
 		_ = os.MkdirAll(dir, 0o755)
 		r := runCrashChild(exe, so, rp.History, dir, rp.CrashAt, -1)
-		d, err := runCrashDump(exe, dir)
+		mode := "ReOpenExisting"
+		if rp.CrashAt%2 == 1 && r.acks >= 1 {
+			mode = "CreateOrOpen"
+		}
+		d, err := runCrashDump(exe, dir, mode)
 		fmt.Printf("run %d: history %s killed at call %d after %d acks; reopen: err=%v openErr=%q expiry=%q\n%s\n", i, rp.History, rp.CrashAt, r.acks, err, d.OpenErr, d.Expiry, d.Tables)
 		os.RemoveAll(dir)
 	}
